@@ -12,18 +12,22 @@ open Extrema
 /-- little-endian word -/
 def wordOf (b : List UInt8) : Nat := b.foldr (fun x acc => x.toNat + 256 * acc) 0
 
+/-- biased exponent and mantissa fields of the magnitude bits -/
+def expField (w : Nat) : Nat := w / 2 ^ 52 % 2048
+def manField (w : Nat) : Nat := w % 2 ^ 52
+
+/-- numerator of the magnitude over the common denominator `2^1074` (the smallest denormal is `1 / 2^1074`): the
+    significand (with the hidden bit of normal numbers) shifted by the exponent -/
+def num (w : Nat) : Nat :=
+  if expField w = 0 then manField w else (2 ^ 52 + manField w) * 2 ^ (expField w - 1)
+
 /-- the value a 64-bit pattern denotes -/
 def ofBits (w : Nat) : V :=
   let sign : Nat := w / 2 ^ 63 % 2
-  let e : Nat := w / 2 ^ 52 % 2048
-  let m : Nat := w % 2 ^ 52
-  if e = 2047 then
-    (if m = 0 then (if sign = 1 then .ninf else .pinf) else .nan)
+  if expField w = 2047 then
+    (if manField w = 0 then (if sign = 1 then .ninf else .pinf) else .nan)
   else
-    let mag : Rat :=
-      if e = 0 then mkRat (Int.ofNat m) (2 ^ 1074)
-      else if 1075 ≤ e then ((Nat.mul (2 ^ 52 + m) (2 ^ (e - 1075)) : Nat) : Rat)
-      else mkRat (Int.ofNat (2 ^ 52 + m)) (2 ^ (1075 - e))
+    let mag : Rat := (num w : Rat) / ((2 ^ 1074 : Nat) : Rat)
     .fin (if sign = 1 then -mag else mag)
 
 /-- the values of a block of `n` consecutive float64 -/
